@@ -330,6 +330,7 @@ func lookup(i *interpreter, instr *ssa.Lookup, x, idx value) value {
 		if itf, ok := idx.(iface); ok && itf.t != nil && !comparableType(itf.t) {
 			panic(i.rtPanic("hash of unhashable type " + itf.t.String()))
 		}
+		i.guardCheck(x, false, "lookup")
 		v, ok := x.lookup(i, idx)
 		if !ok {
 			v = zero(instr.X.Type().Underlying().(*types.Map).Elem())
@@ -1025,6 +1026,7 @@ func callBuiltin(caller *frame, callpos token.Pos, fn *ssa.Builtin, args []value
 		return nil
 
 	case "delete": // delete(map[K]value, K)
+		i.guardCheck(args[0].(*gmap), true, "delete")
 		args[0].(*gmap).delete(i, args[1])
 		return nil
 
@@ -1059,6 +1061,7 @@ func callBuiltin(caller *frame, callpos token.Pos, fn *ssa.Builtin, args []value
 		case []value:
 			return len(x)
 		case *gmap:
+			i.guardCheck(x, false, "len")
 			return x.len()
 		case *channel:
 			if x == nil {
@@ -1204,7 +1207,8 @@ func (it *symStrIter) next() tuple {
 func rangeIter(fr *frame, x value, t types.Type) iter {
 	switch x := x.(type) {
 	case *gmap:
-		return &gmapIter{m: x}
+		fr.i.guardCheck(x, false, "range")
+		return &gmapIter{m: x, i: fr.i}
 	case string, symStr:
 		return &symStrIter{fr: fr, s: x}
 	}
